@@ -294,6 +294,37 @@ pub mod verif {
         false
     }
 
+    /// The ids under which the runtime dispatch caches its backends: [avx2, sse4.2, scalar].
+    #[cfg(all(
+        httparse_simd,
+        not(any(
+            httparse_simd_target_feature_sse42,
+            httparse_simd_target_feature_avx2,
+        )),
+        any(
+            target_arch = "x86",
+            target_arch = "x86_64",
+        ),
+    ))]
+    pub fn runtime_backend_ids() -> Option<[u8; 3]> {
+        Some(super::runtime::VERIF_BACKEND_IDS)
+    }
+
+    #[cfg(not(all(
+        httparse_simd,
+        not(any(
+            httparse_simd_target_feature_sse42,
+            httparse_simd_target_feature_avx2,
+        )),
+        any(
+            target_arch = "x86",
+            target_arch = "x86_64",
+        ),
+    )))]
+    pub fn runtime_backend_ids() -> Option<[u8; 3]> {
+        None
+    }
+
     /// The cached runtime backend id, or `None` if this build has no runtime dispatch.
     #[cfg(all(
         httparse_simd,
